@@ -339,6 +339,14 @@ fn run_inner<K: KeyLike>(case: &Case, prop: Prop, keep_trace: bool, keys: &[u16]
                         format!("step {i} {op:?}: the model defines the outcome {:?} but the call panicked at {loc}: {msg}", exp),
                     ));
                 }
+                if matches!(prop, Prop::C03 | Prop::C04) {
+                    // the panic itself belongs to C05, but what the library touched on the way
+                    // to it (dead, freed or never initialised objects) is a memory-safety finding
+                    let b = take_bad();
+                    if !b.is_empty() {
+                        return Err(vio(prop, i, kind, op, "dead-object-before-panic", format!("step {i} {op:?} (which then panicked at {loc}): {}", b.join("; "))));
+                    }
+                }
                 rep.aborted_by_panic = Some((loc, msg));
                 return Ok(());
             }
